@@ -64,13 +64,13 @@ func Corpus(c *Ctx) []*FileSpec {
 			m.Field = append(m.Field, F("f", 1, Req, typ), F("other", 2, Opt, "int32"))
 		}},
 		{file: "p2rep", syntax: "proto2", prefix: "Rep", core: true, mk: func(pkg string, m *DP, typ, kind string) { m.Field = append(m.Field, F("f", 1, Rep, typ)) }},
-		{file: "p2packed", syntax: "proto2", prefix: "Packed", packableOnly: true, mk: func(pkg string, m *DP, typ, kind string) {
+		{file: "p2packed", syntax: "proto2", prefix: "Packed", packableOnly: true, core: true, mk: func(pkg string, m *DP, typ, kind string) {
 			m.Field = append(m.Field, Packed(F("f", 1, Rep, typ), true))
 		}},
 		{file: "p3imp", syntax: "proto3", prefix: "Imp", core: true, mk: func(pkg string, m *DP, typ, kind string) { m.Field = append(m.Field, F("f", 1, Opt, typ)) }},
-		{file: "p3opt", syntax: "proto3", prefix: "O3", needP3Opt: true, mk: func(pkg string, m *DP, typ, kind string) { AddP3Optional(m, F("f", 1, Opt, typ)) }},
+		{file: "p3opt", syntax: "proto3", prefix: "O3", needP3Opt: true, core: true, mk: func(pkg string, m *DP, typ, kind string) { AddP3Optional(m, F("f", 1, Opt, typ)) }},
 		{file: "p3rep", syntax: "proto3", prefix: "Rep", core: true, mk: func(pkg string, m *DP, typ, kind string) { m.Field = append(m.Field, F("f", 1, Rep, typ)) }},
-		{file: "p3unpacked", syntax: "proto3", prefix: "Unp", packableOnly: true, mk: func(pkg string, m *DP, typ, kind string) {
+		{file: "p3unpacked", syntax: "proto3", prefix: "Unp", packableOnly: true, core: true, mk: func(pkg string, m *DP, typ, kind string) {
 			m.Field = append(m.Field, Packed(F("f", 1, Rep, typ), false))
 		}},
 	}
@@ -183,7 +183,10 @@ func Corpus(c *Ctx) []*FileSpec {
 		f.Dependency = []string{"google/protobuf/timestamp.proto", "google/protobuf/duration.proto", "google/protobuf/wrappers.proto"}
 		m := Msg("Event", F("id", 1, Opt, "string"), F("at", 2, Opt, ".google.protobuf.Timestamp"), F("took", 3, Opt, ".google.protobuf.Duration"),
 			F("note", 4, Opt, ".google.protobuf.StringValue"), F("history", 5, Rep, ".google.protobuf.Timestamp"), F("count", 6, Opt, ".google.protobuf.Int64Value"))
-		f.MessageType = append(f.MessageType, m)
+		// further messages that do NOT use the imported packages (file-per-message output: one import list per file)
+		plain := Msg("Plain", F("s", 1, Opt, "string"), F("n", 2, Opt, "int32"))
+		timer := Msg("Timer", F("d", 1, Opt, ".google.protobuf.Duration"), F("label", 2, Opt, "string"))
+		f.MessageType = append(f.MessageType, m, plain, timer)
 		add("wkt", "well-known-types", true, f)
 	}
 
@@ -394,7 +397,7 @@ func Corpus(c *Ctx) []*FileSpec {
 		}
 		MapField(m, FullName(c.Pkg("imp3"), "Uses"), "by_name", 6, "string", FullName(dep, "Stamp"))
 		Oneof(m, "pick", F("o_stamp", 7, Opt, FullName(dep, "Stamp")), F("o_text", 8, Opt, "string"))
-		f.MessageType = append(f.MessageType, m)
+		f.MessageType = append(f.MessageType, m, Msg("Local", F("t", 1, Opt, "string"), F("k", 2, Rep, "sint32")))
 		add("imp3", "fields-of-imported-types", true, f)
 		out[len(out)-1].Imports = []string{"impdep"}
 	}
